@@ -45,6 +45,7 @@ type Spec struct {
 	BuildInfo map[string]string          `json:"build_info,omitempty"` // absolute path -> thriftgo dependency version
 
 	KeepLog bool            `json:"keep_log,omitempty"`
+	DiskAll bool            `json:"disk_all,omitempty"` // report untouched input files too
 	Driver  json.RawMessage `json:"driver,omitempty"`
 }
 
